@@ -3,7 +3,7 @@
 # Usage: tools/benign.sh <repo-copy> <patch.diff> <Cxx>...   — the repo copy is modified and restored; never /repo.
 set -u
 cd "$(dirname "$0")/.."
-R="$1"; P="$2"; shift 2
+R="$1"; P="$(realpath "$2")"; shift 2
 [ "$R" = "/repo" ] && { echo "refusing to run on /repo"; exit 2; }
 export VERIF_REPO="$R"
 git -C "$R" checkout -q -- . && git -C "$R" clean -fdq
